@@ -593,6 +593,37 @@ static void c04_case(uint64_t idx)
     c04_case_single(idx - idx / 5);
 }
 
+/* ---- use before main(): a constructor of the program that runs before default-priority constructors keys every SKINNY variant
+   and Mantis and processes one block; main() compares with the reference models (C01/C02: "for every key and every block") ---- */
+static struct { uint8_t out[7][16]; int ret[7]; int ran; } g_early;
+static const uint8_t EARLY_KEY[48] = {0x60,0x11,0x92,0x23,0xb4,0x35,0xc6,0x47,0xd8,0x59,0xea,0x6b,0xfc,0x7d,0x0e,0x8f,1,2,3,4,5,6,7,8,9,10,11,12,13,14,15,16,
+                                      0xa1,0xa2,0xa3,0xa4,0xa5,0xa6,0xa7,0xa8,0xa9,0xaa,0xab,0xac,0xad,0xae,0xaf,0xb0};
+static const uint8_t EARLY_IN[16] = {0x3a,0x0c,0x47,0x76,0x7a,0x26,0xa6,0x8d,0xd3,0x82,0xa6,0x95,0xe7,0x02,0x2e,0x25};
+__attribute__((constructor(101))) static void early_probe(void)
+{
+    int v; Skinny128Key_t k128; Skinny64Key_t k64; MantisKey_t km;
+    for (v = 0; v < 3; ++v) { g_early.ret[v] = skinny64_set_key(&k64, EARLY_KEY, 8 * (unsigned)(v + 1)); skinny64_ecb_encrypt(g_early.out[v], EARLY_IN, &k64); }
+    for (v = 0; v < 3; ++v) { g_early.ret[3 + v] = skinny128_set_key(&k128, EARLY_KEY, 16 * (unsigned)(v + 1)); skinny128_ecb_encrypt(g_early.out[3 + v], EARLY_IN, &k128); }
+    g_early.ret[6] = mantis_set_key(&km, EARLY_KEY, 16, 7, MANTIS_ENCRYPT); mantis_ecb_crypt(g_early.out[6], EARLY_IN, &km);
+    g_early.ran = 1;
+}
+static void early_check(const char *prop_)
+{
+    int v; uint8_t e[16]; static const char *const nm[7] = {"skinny64-64", "skinny64-128", "skinny64-192", "skinny128-128", "skinny128-256", "skinny128-384", "mantis7"};
+    for (v = 0; v < 7; ++v) {
+        int mine = (v < 6) ? !strcmp(prop_, "C01") : !strcmp(prop_, "C02");
+        if (!mine) continue;
+        if (v < 3) ref_skinny_key_crypt(8, EARLY_KEY, 8 * (unsigned)(v + 1), 0, EARLY_IN, e);
+        else if (v < 6) ref_skinny_key_crypt(16, EARLY_KEY, 16 * (unsigned)(v - 2), 0, EARLY_IN, e);
+        else ref_mantis_encrypt(7, EARLY_KEY, NULL, EARLY_IN, e);
+        VH_COUNT("variants_used_before_main", 1);
+        if (!g_early.ran || g_early.ret[v] != 1 || memcmp(g_early.out[v], e, v < 3 || v == 6 ? 8 : 16)) {
+            char key_[200]; snprintf(key_, sizeof(key_), "%s:%s:encrypt:used-from-a-constructor-before-main:differs-from-specification", prop_, nm[v]);
+            vh_violation(key_, "{\"when\":\"constructor(101) of the program, i.e. before the library's own start-up code\"}", "{\"driver\":\"drv_blk\"}");
+        }
+    }
+}
+
 int main(int argc, char **argv)
 {
     int i;
@@ -602,8 +633,8 @@ int main(int argc, char **argv)
     vh_guard_init();
     vh_install_fault_handler();
     for (i = 0; i < CIPH_N; ++i) maxbe[i] = vh_max_backend(&vh_ciphers[i]);
-    if (!strcmp(vh_arg_mode, "c01")) { vh_child_exit_hook = c01_finish; vh_run(c01_case); }
-    else if (!strcmp(vh_arg_mode, "c02")) vh_run(c02_case);
+    if (!strcmp(vh_arg_mode, "c01")) { if (vh_shard == 0) early_check("C01"); vh_child_exit_hook = c01_finish; vh_run(c01_case); }
+    else if (!strcmp(vh_arg_mode, "c02")) { if (vh_shard == 0) early_check("C02"); vh_run(c02_case); }
     else if (!strcmp(vh_arg_mode, "c03")) vh_run(c03_case);
     else if (!strcmp(vh_arg_mode, "c04")) vh_run(c04_case);
     else { fprintf(stderr, "drv_blk: unknown mode\n"); return 2; }
